@@ -154,13 +154,13 @@ Definition reopen (s : cstate) (d : N) : cstate :=
   let c := commit s in
   mkC (N.max (base c) (fend c)) d (wal c) (tcap c) (tseq c) (iss c) (vec c) (pend c) (stored c) (fend c).
 
-(* begin_batch(wal_pre_size_bytes = m) -> ensure_wal_capacity: data_end moves, cached_payload_end
-   does NOT (unlike grow_wal_region) *)
+(* begin_batch(wal_pre_size_bytes = m) -> ensure_wal_capacity: data_end and cached_payload_end move
+   with the data (as in grow_wal_region) *)
 Definition presize (s : cstate) (m : N) : cstate :=
   if m <=? wal s then s
   else let target := 2 ^ N.log2_up m in
        let d := target - wal s in
-       mkC (cpe s) (dend s + d) target (tcap s) (tseq s) (iss s) (vec s) (pend s) (stored s) (move d (fend s)).
+       mkC (cpe s + d) (dend s + d) target (tcap s) (tseq s) (iss s) (vec s) (pend s) (stored s) (move d (fend s)).
 
 Inductive cop :=
 | OPut (emb : bool) (chk : N) (st : list N) (grow : N) (auto : bool)
